@@ -2,6 +2,7 @@ package main
 
 import (
 	"context"
+	"encoding/json"
 	"errors"
 	"fmt"
 	"math/rand"
@@ -168,6 +169,7 @@ type cenv struct {
 	so        *scriptedOpener
 	sc        *scriptedCloser
 	hopener   *hystrix.Opener
+	viewing   bool // a diagnostic view is being read (see op `view`)
 	hcloser   *hystrix.Closer
 	copener   *simplelogic.ConsecutiveErrOpener
 	callbacks []func()
@@ -210,15 +212,26 @@ func newCenvWith(h map[string]string, mgr *circuit.Manager) *cenv {
 	cfg := circuit.Config{}
 	cfg.General.TimeKeeper.Now = e.clk.Now
 	cfg.General.TimeKeeper.AfterFunc = func(d time.Duration, f func()) *time.Timer { return nil }
-	for _, r := range e.recs {
-		cfg.Metrics.Run = append(cfg.Metrics.Run, runRec{r})
-		cfg.Metrics.Fallback = append(cfg.Metrics.Fallback, fbRec{r})
-		cfg.Metrics.Circuit = append(cfg.Metrics.Circuit, runRec{r})
+	addRec := func(c *circuit.Config, r *recorder) {
+		c.Metrics.Run = append(c.Metrics.Run, runRec{r})
+		c.Metrics.Fallback = append(c.Metrics.Fallback, fbRec{r})
+		c.Metrics.Circuit = append(c.Metrics.Circuit, runRec{r})
+	}
+	addRec(&cfg, e.recs[0])
+	if mgr != nil {
+		addRec(&cfg, e.recs[1])
 	}
 	switch h["opener"] {
 	case "hystrix":
 		e.ocfg = hystrix.ConfigureOpener{ErrorThresholdPercentage: getI(h, "o_pct", 50), RequestVolumeThreshold: getI(h, "o_vol", 20),
-			Now: func() time.Time { return clockBase }, RollingDuration: time.Duration(getI(h, "o_dur", 10_000_000_000)), NumBuckets: int(getI(h, "o_n", 10))}
+			// the opener's own clock: the construction instant, and — when its JSON view is read — what the circuit's
+			// substitute clock shows right now (never the wall clock)
+			Now: func() time.Time {
+				if e.viewing {
+					return clockBase.Add(time.Duration(e.clk.now + e.clk.offset))
+				}
+				return clockBase
+			}, RollingDuration: time.Duration(getI(h, "o_dur", 10_000_000_000)), NumBuckets: int(getI(h, "o_n", 10))}
 		// the opener's settings reach it through hystrix.Factory layering: thresholds factory-wide, the rest per circuit
 		ohf := hystrix.Factory{
 			ConfigureOpener: hystrix.ConfigureOpener{ErrorThresholdPercentage: e.ocfg.ErrorThresholdPercentage, RequestVolumeThreshold: e.ocfg.RequestVolumeThreshold},
@@ -281,6 +294,11 @@ func newCenvWith(h map[string]string, mgr *circuit.Manager) *cenv {
 		applyCfg(&lower, map[string]string{"iei": h["iei"]})
 		lm := &circuit.Manager{DefaultCircuitProperties: []circuit.CommandPropertiesConstructor{func(string) circuit.Config { return lower }}}
 		upper := circuit.Config{General: circuit.GeneralConfig{ForceOpen: getB(h, "fo", false)}, Execution: circuit.ExecutionConfig{IgnoreInterrupts: getB(h, "ii", false)}}
+		// collectors of all three kinds arrive from EVERY layer (explicit first, explicit second, default constructor):
+		// each of them must be told everything (the fan-out check compares their logs)
+		addRec(&upper, e.recs[1])
+		e.recs = append(e.recs, &recorder{})
+		addRec(&lower, e.recs[2])
 		e.c = lm.MustCreateCircuit("c", upper, cfg)
 		// the sibling shares every factory VALUE with the circuit under test; whatever it does must leave that one alone
 		sibCfg := cfg
@@ -663,6 +681,18 @@ func (circuitSuite) Run(h map[string]string, ops []string) []string {
 				e.base.General.TimeKeeper.Now = func() time.Time { return e.clk.nowOf(gen, offs) }
 				e.callbacks = nil
 				e.c.SetConfigNotThreadSafe(e.base)
+			case "view":
+				// the circuit's expvar view (config, gauges, the opener's and the closer's JSON, the collectors' Var) read
+				// while the substitute clocks show the current instant: a diagnostic read must change nothing
+				e.clk.frozen, e.viewing = true, true
+				_ = e.c.Var().String()
+				if e.hopener != nil {
+					_, _ = json.Marshal(e.hopener)
+				}
+				if e.hcloser != nil {
+					_, _ = json.Marshal(e.hcloser)
+				}
+				e.clk.frozen, e.viewing = false, false
 			case "sib":
 				// k failing calls and one succeeding call on the sibling circuit (k stays below what would open it)
 				if e.sib != nil {
@@ -922,6 +952,9 @@ func (circuitSuite) Gen(r *rand.Rand, i int) Case {
 				}
 				c.Ops = append(c.Ops, fmt.Sprintf("sib %d", k))
 				tag("sibling-traffic")
+			} else if r.Intn(7) == 0 && pt == "" {
+				c.Ops = append(c.Ops, "view")
+				tag("diagnostic-view")
 			} else if r.Intn(6) == 0 {
 				c.Ops = append(c.Ops, "rebuild")
 				tag("rebuild-with-new-clock")
